@@ -155,7 +155,10 @@ def check_property(prop, tier, base_seed, runs=None, workers=None, wall_cap=None
         exit_code = max(exit_code, 1) if exit_code != 2 else 2
     for he in total["harness_errors"][:3]:
         print("HARNESS-ERROR seed=%s: %s" % (he.get("seed"), he["error"]))
-        exit_code = 2
+        # a library that breaks the property often breaks the harness' own reads as well (a configuration that can no
+        # longer be enumerated...): violations that were minimised and reproduced in a fresh process stay the verdict
+        if not reported:
+            exit_code = 2
     if total["runs"] == 0:
         print("HARNESS-ERROR no runs executed")
         exit_code = 2
